@@ -266,7 +266,7 @@ def readTierLong (tt : Txt) : Except Err RawTier := do
   let d := splitKw tt (lit (if isI then "intervals" else "points"))
   let hdr := d.headD #[]
   let els := d.drop 1
-  let name ← need (matchText hdr (lit "name") false)
+  let name ← need (matchText hdr (lit "name") true)      -- MULTILINE | DOTALL since fix A32 (a name may span several lines)
   let name := replace name (lit "\"\"") (lit "\"")
   let st ← need (matchNum hdr (lit "xmin") true)
   let en ← need (matchNum hdr (lit "xmax") true)
